@@ -15,12 +15,15 @@ open TraitsVerif TraitsVerif.Model.Obs TraitsVerif.Proto
 
 def names : List String :=
   ["value", "mate", "child", "kids", "byname", "group", "trait_added", "trait_modified",
-   "extra", "xchild", "items", "nosuch", "ichild", "nchild", "tkids", "l2", "l2_items"]
+   "extra", "xchild", "items", "nosuch", "ichild", "nchild", "tkids", "l2", "l2_items", "shared"]
 
 def nameOf (n : Name) : String := names.getD n s!"n{n}"
 def name? (s : String) : Option Name := names.findIdx? (· == s)
 
 def nExtra : Name := 8
+def nL2 : Name := 15
+def nL2Items : Name := 16
+def nShared : Name := 17
 
 def nat? (s : String) : Option Nat := (clean s).toNat?
 
@@ -75,6 +78,16 @@ def rpn? : List String → List Expr → Option Expr
 
 inductive Op where
   | mut (ms : List Mutation) (declared : List Id)
+  /-- `o.add_trait(f, List(…))`: the recursive `add_trait(f + "_items", Event)` of
+  has_traits.py:2846-2848 comes first and is a complete add_trait of its own (see `stepOp`). -/
+  | addList (o : Id) (f items : Name) (tagged : Bool)
+  /-- a mutator whose effect depends on what the container holds (`setdefault`, `pop(k, None)`,
+  `popitem`, `remove`, `^=`, …): the basic mutations it amounts to in the current heap;
+  `none` = the harness skips it (KeyError before anything happens). -/
+  | dyn (f : Heap → Option (List Mutation))
+  /-- `del o.n` with the notifier list of the trait in existence (ctraits.c setattr_trait,
+  `value == NULL` branch); `fresh` names a container default. -/
+  | delField (o : Id) (n : Name) (fresh : Id)
   | observe (handler : Nat) (root : Id) (rm : Bool) (e : Expr)
   | kill (handler : Nat)
 
@@ -101,9 +114,9 @@ def parseOp (s : String) : Option Op :=
     -- tag codes: 0 no metadata, 1 True, 2 False, 3 0, 4 "", 5 "x", 6 None; matched iff not None
     let tg ← nat? tg
     let o ← nat? o
-    pure (.mut ((if f == 15 then [Mutation.announce o 16 15] else []) ++
-      [.addTrait o f (tg != 0 && tg != 6)
-        (if f == nExtra then .val (.int 0) else if f == 15 then .newList else .val .none)]) [])
+    if f == nL2 then pure (.addList o f nL2Items (tg != 0 && tg != 6))
+    else pure (.mut
+      [.addTrait o f (tg != 0 && tg != 6) (if f == nExtra then .val (.int 0) else .val .none)] [])
   | ["la", c, x] => do pure (.mut [.listAppend (← nat? c) (← nat? x)] [])
   | ["li", c, i, x] => do pure (.mut [.listInsert (← nat? c) (← nat? i) (← nat? x)] [])
   | ["ld", c, i] => do pure (.mut [.listDel (← nat? c) (← nat? i)] [])
@@ -114,10 +127,64 @@ def parseOp (s : String) : Option Op :=
   | ["le", c, xs] => do pure (.mut [.listExtend (← nat? c) (← natList? xs)] [])
   | ["ds", c, k, x] => do pure (.mut [.dictSet (← nat? c) (← nat? k) (← nat? x)] [])
   | ["dd", c, k] => do pure (.mut [.dictDel (← nat? c) (← nat? k)] [])
+  -- trait_dict_object.py: `d[k] = x` / `update({k: x})` / `d |= {k: x}` / `setdefault(k, x)` with the key
+  -- un-cast (suffix `u`: the int k for the entry "<k>") or not: one pair, classified by the VALIDATED
+  -- key, announced as removed {k: old} / added {k: x} by dict_event_factory
+  | ["dsu", c, k, x] => do pure (.mut [.dictSet (← nat? c) (← nat? k) (← nat? x)] [])
+  | ["du", c, k, x] => do pure (.mut [.dictSet (← nat? c) (← nat? k) (← nat? x)] [])
+  | ["duu", c, k, x] => do pure (.mut [.dictSet (← nat? c) (← nat? k) (← nat? x)] [])
+  | ["dio", c, k, x] => do pure (.mut [.dictSet (← nat? c) (← nat? k) (← nat? x)] [])
+  | ["diou", c, k, x] => do pure (.mut [.dictSet (← nat? c) (← nat? k) (← nat? x)] [])
+  -- setdefault tests the RAW key first (:285): an un-cast key never matches and the entry is overwritten
+  | ["dsdu", c, k, x] => do pure (.mut [.dictSet (← nat? c) (← nat? k) (← nat? x)] [])
+  | ["dsd", c, k, x] => do
+    let c ← nat? c; let k ← nat? k; let x ← nat? x
+    pure (.dyn fun h => match h.get c with
+      | .dict d => if d.any (·.1 == k) then some [] else some [.dictSet c k x]
+      | _ => none)
+  | ["dp", c, k] => do pure (.mut [.dictDel (← nat? c) (← nat? k)] [])
+  | ["dpd", c, k] => do
+    let c ← nat? c; let k ← nat? k
+    pure (.dyn fun h => match h.get c with
+      | .dict d => if d.any (·.1 == k) then some [.dictDel c k] else some []
+      | _ => none)
+  | ["dpi", c] => do
+    let c ← nat? c
+    pure (.dyn fun h => match h.get c with
+      | .dict d => (d.getLast?).map (fun kv => [Mutation.dictDel c kv.1])
+      | _ => none)
   | ["dc", c] => do pure (.mut [.dictClear (← nat? c)] [])
   | ["sa", c, x] => do pure (.mut [.setAdd (← nat? c) (← nat? x)] [])
   | ["sr", c, x] => do pure (.mut [.setDiscard (← nat? c) (← nat? x)] [])
   | ["sc", c] => do pure (.mut [.setClear (← nat? c)] [])
+  -- trait_set_object.py, one-element operands: update / |= add, -= / difference_update / &= remove,
+  -- ^= / symmetric_difference_update toggle; remove raises KeyError for an absent item
+  | ["su", c, x] => do pure (.mut [.setAdd (← nat? c) (← nat? x)] [])
+  | ["sio", c, x] => do pure (.mut [.setAdd (← nat? c) (← nat? x)] [])
+  | ["sis", c, x] => do pure (.mut [.setDiscard (← nat? c) (← nat? x)] [])
+  | ["sia", c, x] => do pure (.mut [.setDiscard (← nat? c) (← nat? x)] [])
+  | ["sdu", c, x] => do pure (.mut [.setDiscard (← nat? c) (← nat? x)] [])
+  | ["sro", c, x] => do
+    let c ← nat? c; let x ← nat? x
+    pure (.dyn fun h => match h.get c with
+      | .set s => if s.contains x then some [.setDiscard c x] else none
+      | _ => none)
+  | ["six", c, x] => do
+    let c ← nat? c; let x ← nat? x
+    pure (.dyn fun h => match h.get c with
+      | .set s => if s.contains x then some [.setDiscard c x] else some [.setAdd c x]
+      | _ => none)
+  | ["sxu", c, x] => do
+    let c ← nat? c; let x ← nat? x
+    pure (.dyn fun h => match h.get c with
+      | .set s => if s.contains x then some [.setDiscard c x] else some [.setAdd c x]
+      | _ => none)
+  | ["sp", c] => do
+    let c ← nat? c
+    pure (.dyn fun h => match h.get c with
+      | .set [x] => some [.setDiscard c x]
+      | _ => none)
+  | ["del", o, f, c] => do pure (.delField (← nat? o) (← name? f) (← nat? c))
   | "obs" :: h :: r :: e => do pure (.observe (← nat? h) (← nat? r) false (← rpn? e []))
   | "unobs" :: h :: r :: e => do pure (.observe (← nat? h) (← nat? r) true (← rpn? e []))
   | ["kill", h] => do pure (.kill (← nat? h))
@@ -174,6 +241,9 @@ structure DSt where
   st : St
   conts : List Id               -- declared container identities (ascending as declared)
   deadH : List Nat
+  /-- instance traits that exist on a pool object although `traits()` never lists them (the heap
+  of the model holds the listed ones only): the `<name>_items` companions `add_trait` created. -/
+  hidden : List (Id × Name) := []
 
 def DSt.env (d : DSt) : Env :=
   { -- handler keys >= 10 are the same handler (key - 10) registered with another dispatcher
@@ -251,6 +321,51 @@ def stepOp (d : DSt) (op : Op) : DSt × String :=
       let d0 := { d with conts := d.conts ++ declared.filter (fun c => !d.conts.contains c) }
       let r := runMuts d0 ms
       (r.1, r.2.1, status r.2.2)
+    | .dyn f =>
+      (match f d.st.h with
+       | none => (d, [], "err Other")
+       | some ms =>
+         let r := runMuts d ms
+         (r.1, r.2.1, status r.2.2))
+    | .delField o n fresh =>
+      -- ctraits.c setattr_trait, `value == NULL` (:2441-2489), notifier list non-NULL
+      let d0 := { d with conts := d.conts ++ (if d.conts.contains fresh then [] else [fresh]) }
+      (match d0.st.h.get o with
+       | .inst fs =>
+         (match findField fs n with
+          | none => (d0, [], "err Other")
+          | some f =>
+            -- :2451-2454 nothing in `__dict__`: nothing happens
+            if f.val == .unset then (d0, [], "ok")
+            else
+              -- :2457 PyDict_DelItem; :2468 `value = traito->getattr(…)`: getattr_trait evaluates
+              -- the default, stores it and announces Uninitialized -> default (:2025-2030)
+              let r1 := mutate d0.env ⟨storeField d0.st.h o n .unset, d0.st.H⟩ (.read o n fresh)
+              let d1 := { d0 with st := r1.st }
+              match r1.err with
+              | some e => (d1, r1.delivered, status (some e))
+              | none =>
+                let new := fieldVal r1.st.h (some o) n
+                -- :2474-2483 `changed = (old_value != value)` (identity; always under
+                -- comparison_mode none), then call_notifiers(old, value)
+                if f.cmp == .none || f.val != new then
+                  let r2 := fire d1.env r1.st.H r1.st.h o n f.val new
+                  ({ d1 with st := r2.st }, r1.delivered ++ r2.delivered, status r2.err)
+                else (d1, r1.delivered, "ok"))
+       | _ => (d0, [], "err Other"))
+    | .addList o f items tagged =>
+      -- has_traits.py:2846-2848: `self.add_trait(name + "_items", handler.items_event())` runs first.
+      -- It announces the companion only when the object has no trait of that name yet
+      -- (`old_trait is None`, :2853, :2889-2890) and it has stored it in the instance trait
+      -- dictionary (:2857-2858) BEFORE `trait_added` fires: when a notifier of `trait_added`
+      -- raises, the outer add_trait is abandoned with `<f>_items` defined and `f` not.  A later
+      -- `add_trait(f, List(…))` then finds the companion, announces nothing for it and goes on to
+      -- define and announce `f` itself.
+      let first := !d.hidden.contains (o, items)
+      let d0 := if first then { d with hidden := (o, items) :: d.hidden } else d
+      let r := runMuts d0 ((if first then [Mutation.announce o items f] else []) ++
+        [.addTrait o f tagged .newList])
+      (r.1, r.2.1, status r.2.2)
     | .observe hd root rm e =>
       let r := observe d.st.h hd root rm e d.st.H
       ({ d with st := ⟨d.st.h, r.H⟩ }, [], status r.err)
@@ -262,7 +377,7 @@ def stepOp (d : DSt) (op : Op) : DSt × String :=
   let pstr := " ".intercalate (sortStrs ps)
   (d4, stat ++ " D{" ++ dstr ++ "} P{" ++ pstr ++ "} N{" ++ showPop d4 ++ "}")
 
-def initFields (childDflt : Val) : List Field :=
+def initFields (childDflt : Val) (shared : Option Id := none) : List Field :=
   [⟨0, false, .val (.int 0), .unset, .equality⟩,
    ⟨1, true, .val childDflt, .unset, .equality⟩,      -- mate: tag=True, same dynamic default as child
    ⟨2, false, .val childDflt, .unset, .equality⟩,
@@ -275,10 +390,14 @@ def initFields (childDflt : Val) : List Field :=
    -- tkids = List(Instance, tag=False): the metadata is defined (falsy, not None), so `+tag` matches
    ⟨14, true, .newList, .unset, .equality⟩,
    ⟨6, false, .val .undef, .unset, .equality⟩,
-   ⟨7, false, .val .undef, .unset, .equality⟩]
+   ⟨7, false, .val .undef, .unset, .equality⟩] ++
+  -- `shared = Any(<pool object s>)`, added with add_class_trait: listed last, constant default
+  (match shared with
+   | some s => [⟨nShared, false, .val (.ref s), .unset, .equality⟩]
+   | none => [])
 
-def initHeap (dflts : List Val) : Heap :=
-  dflts.zipIdx.map (fun p => (p.2, Obj.inst (initFields p.1)))
+def initHeap (dflts : List Val) (shared : Option Id := none) : Heap :=
+  dflts.zipIdx.map (fun p => (p.2, Obj.inst (initFields p.1 shared)))
 
 def runOps : DSt → List Op → List String
   | _, [] => []
@@ -289,7 +408,10 @@ def runOps : DSt → List Op → List String
 def handle (line : String) : String :=
   match (clean line).splitOn "|" with
   | [_, n, dflts, ops] =>
-    let ents := fields dflts ","
+    let ents0 := fields dflts ","
+    -- an entry prefixed with `S`: that pool object is the constant default of `shared`
+    let shared := ents0.findIdx? (·.startsWith "S")
+    let ents := ents0.map (fun e => if e.startsWith "S" then (e.drop 1).toString else e)
     let dpart := ents.map (fun e => (e.splitOn "~").headD "")
     let cpart := ents.zipIdx.mapM (fun (p : String × Nat) => match p.1.splitOn "~" with
       | [_, c] => nat? c
@@ -298,7 +420,7 @@ def handle (line : String) : String :=
     | some n, some dflts, some ops, some cls =>
       if dflts.length != n then "bad-case"
       else
-        let d : DSt := { n := n, cls := cls, st := ⟨initHeap dflts, Hooks.empty⟩, conts := [], deadH := [] }
+        let d : DSt := { n := n, cls := cls, st := ⟨initHeap dflts shared, Hooks.empty⟩, conts := [], deadH := [] }
         " ; ".intercalate (runOps d ops)
     | _, _, _, _ => "bad-case"
   | _ => "bad-case"
